@@ -71,11 +71,11 @@ func TestC04_Split(t *testing.T) { rapid.Check(t, propSplit) }
 // propMulShift checks mulGFlooredDiv on arbitrary operands.
 func propMulShift(t *rapid.T) {
 	var k, g *big.Int
-	mode := rapid.SampledFrom([]string{"steered", "limbs", "general"}).Draw(t, "mode")
+	mode := gen.Sampled([]string{"steered", "limbs", "general"}).Draw(t, "mode")
 	switch mode {
 	case "steered":
 		k, _ = gen.GLVScalar(t, "k")
-		g = rapid.SampledFrom([]*big.Int{ref.GLVg1, ref.GLVg2}).Draw(t, "g")
+		g = gen.Sampled([]*big.Int{ref.GLVg1, ref.GLVg2}).Draw(t, "g")
 	case "limbs":
 		k = ref.Mod(gen.LimbPattern(t, "k"), ref.N)
 		g = ref.Mod(gen.LimbPattern(t, "g"), ref.N)
